@@ -1724,6 +1724,27 @@ def _pure_cleanup(fn, start, limit=40):
     return True
 
 
+_FILE_INDEX = {}
+
+
+def _file_of(f):
+    """source file of a function: from the header for impl methods / closures, by a unique `fn name(` match otherwise"""
+    m = re.search(r"(src/[\w/]+\.rs)", f.name) or re.search(r"(src/[\w/]+\.rs)", f.closure_span() or "")
+    if m:
+        return m.group(1)
+    if not _FILE_INDEX:
+        root = os.path.join(SRC_ROOT, "src")
+        for dp, dn, fs in os.walk(root):
+            for fn_ in fs:
+                if fn_.endswith(".rs"):
+                    rel = os.path.relpath(os.path.join(dp, fn_), SRC_ROOT)
+                    for mm in re.finditer(r"\bfn (\w+)\s*[<(]", open(os.path.join(dp, fn_), errors="replace").read()):
+                        _FILE_INDEX.setdefault(mm.group(1), set()).add(rel)
+    base = f.name.split("::")[0] if "{closure" in f.name else f.name.split("::")[-1]
+    cands = _FILE_INDEX.get(base, set())
+    return sorted(cands)[0] if len(cands) == 1 else "src/?"
+
+
 def no_swallowed_errors(fns):
     out = []
     for f in fns:
@@ -1756,7 +1777,8 @@ def no_swallowed_errors(fns):
             continue
         white = [why for rx, why in SWALLOW_OK if re.search(rx, f.name)]
         short = f.name.split("::")[-1] if "<impl" not in f.name else re.sub(r"<impl at (src/[^:]+):[^>]*>", r"\1", f.name)
-        a = Automaton(f, "O10.7 %s: no Err arm falls through to a normal return" % short[-70:])
+        where = _file_of(f)
+        a = Automaton(f, "O10.7 [%s] %s: no Err arm falls through to a normal return" % (where, short[-60:]))
         edges = [edge_block(f, sw, tgt) for sw, tgt, _ in sites]
         prop = []
         for b in live_blocks(f):
